@@ -23,6 +23,7 @@ macro_rules! with_check {
             "C08" => $f::<props::core::C08>($($arg),*),
             "C09" => $f::<props::c09::C09>($($arg),*),
             "C16" => $f::<props::c16::C16>($($arg),*),
+            "C17" => $f::<props::c17::C17>($($arg),*),
             "C18" => $f::<props::core::C18>($($arg),*),
             "C19" => $f::<props::c16::C19>($($arg),*),
             "C10" => $f::<props::c10::C10>($($arg),*),
